@@ -419,6 +419,7 @@ fn mpo_oracle(r: &mut Report, kind: usize, a: &[u32], b: &[u32], m: &[u32]) {
 
 pub fn run(ctx: &Ctx) -> anyhow::Result<Report> {
 	let mut r = Report::new("C13", "C13.Run");
+	r.shard_size = if ctx.thorough { 250 } else { 60 };
 	let mut rng = Rng::new(ctx.seed);
 	let sweep_n = if ctx.thorough { 5 } else { 4 };
 	r.rule = format!("(1) exhaustive: every ordered pair of duplicate-free lists over {sweep_n} symbols (all lengths) as the interface lists of two otherwise equal classes, merged through dukebox::merge::merge; the model enumerates the same pairs inside Coq. (2) random list pairs up to length 12 that are interleavings of a common order, prefixes, suffixes, permutations, disjoint, equal, or arbitrary (also with duplicates, outside the theorems' hypothesis), through interfaces, fields and methods. (3) generated jar pairs (zip archives in memory and ParsedJars): disjoint/identical/overlapping entry sets over classes (net/minecraft, top-level, library packages), resources equal or different, directories, META-INF with manifest, .SF/.RSA/.DSA files; class pairs identical, differing in members/interfaces/annotations/inner classes. (4) separate streams outside the hypotheses: differing version/access/deprecated/synthetic flags (assert panics), differing super class or class name (Err), differing inner-class records, duplicate member keys, unreadable class bytes, entry kind mismatch. A case is non-trivial when at least one list/jar is non-empty and the merge returned a jar; distinct by printed case.");
@@ -438,7 +439,7 @@ pub fn run(ctx: &Ctx) -> anyhow::Result<Report> {
 	r.exhaustive = true;
 
 	// 2. random list pairs
-	let n = if ctx.thorough { 20000 } else { 3000 };
+	let n = if ctx.thorough { 20000 } else { 2100 };
 	for i in 0..n {
 		let (mode, a, b) = gen::list_pair(&mut rng);
 		let kind = i % 3;
@@ -456,7 +457,7 @@ pub fn run(ctx: &Ctx) -> anyhow::Result<Report> {
 	}
 
 	// 3./4. jars
-	let n = if ctx.thorough { 12000 } else { 1500 };
+	let n = if ctx.thorough { 8000 } else { 640 };
 	for i in 0..n {
 		let twist = if i % 4 == 3 { gen::Twist::pick(&mut rng) } else { gen::Twist::None };
 		let route = if rng.chance(3, 5) { Route::Zip } else { Route::Parsed };
